@@ -237,3 +237,63 @@ def _derefs(f, p):
             if out.get(x.attr) != 'unguarded':
                 out[x.attr] = kind
     return out
+
+
+# public operation -> the switched slot(s) it must reach on self (any of)
+OP_SLOTS = {
+    'append': {'_append'}, '__iadd__': {'_append'}, 'prepend': {'_prepend'}, 'ror': {'_ror'}, 'rol': {'_rol'},
+    'find': {'_find'}, 'rfind': {'_rfind'}, 'findall': {'_findall'},
+    'insert': {'__setitem__'}, 'overwrite': {'__setitem__'}, '__delitem__': {'__delitem__'},
+    '__getitem__': {'getindex', 'getslice_withstep', 'getslice'}, '__setitem__': {'__setitem__'},
+}
+
+
+def rule_G5(ctx):
+    """Every position-relative public operation of every class reaches its mode-switched slot; and a variant never
+    re-dispatches through a slot of its own class (that would apply the mirror twice)."""
+    m = ctx.m
+    from .ownership import get_effects
+    E = get_effects(ctx)
+    r = RuleResult('G5', 'position-relative operations go through their switched slot on every class; variants do not re-enter slots')
+    n = 0
+    for c in FAMILY:
+        for op, slots in OP_SLOTS.items():
+            for f in m.winner(c, op):
+                n += 1
+                node = ctx.node(f, c)
+                seen, work, found = set(), [node], False
+                while work and not found:
+                    cur = work.pop()
+                    if cur in seen:
+                        continue
+                    seen.add(cur)
+                    fa = ctx.fa(cur)
+                    for cs in fa.calls:
+                        if cs.name in slots and slot_call(ctx, cs):
+                            found = True
+                    edges, selfname = E.edges(cur)
+                    for (cn, root, cs) in edges:
+                        if root is not None and (root == selfname or E.resolve_alias(cur, root, selfname) == selfname):
+                            work.append(cn)
+                if found:
+                    r.ok(f'{c}.{op}', {'instance': f'{c}.{op}', 'reaches_slot': sorted(slots)})
+                else:
+                    r.fail(f.key, f'{c}.{op}: slot {"/".join(sorted(slots))} not reached', f"{c}.{op} never calls the mode-switched slot "
+                           f"{'/'.join(sorted(slots))} on self: under options.lsb0 this operation on a {c} is not mirrored (it works from the same end "
+                           'as in msb0 mode)', loc=f.loc(), extra={'ctx': c})
+    # variants must not call a slot of their own class
+    for (c, s), modes in sorted(m.slots.items()):
+        own_slots = {sl for (cc, sl) in m.slots if cc == c}
+        for mode, (vc, vf) in modes.items():
+            g = m.classes[vc].methods.get(vf)
+            if g is None:
+                continue
+            for x in own_walk(g.node):
+                if isinstance(x, ast.Call) and isinstance(x.func, ast.Attribute) and ast.unparse(x.func.value) == 'self' and x.func.attr in own_slots \
+                        and c != 'BitStore':
+                    r.fail(g.key, x, f"the {mode}-mode variant {vf} calls self.{x.func.attr}, a slot of the same class that set_lsb0 rebinds: which function "
+                           'runs depends on the mode, so the variant computes something else in lsb0 than in msb0', loc=g.loc(x))
+            r.ok(f'{vc}.{vf}', trivial=True)
+    if n < 30:
+        raise AnalysisError(f'only {n} (class, operation) pairs examined (floor 30)')
+    return r
